@@ -459,7 +459,7 @@ func runConcurrency(rc *RunCtx) *Violation {
 	// every execution runs under a generous logical step cap so that a pathological parse cannot
 	// stall the batch; outside a task the call gets an inline pseudo-task of its own
 	exec := func(op *concOp, reference bool) string {
-		const opCap = 30000000
+		const opCap = 6000000
 		if simrt.TaskID() >= 0 {
 			base := simrt.Depth()
 			simrt.OpBegin(opCap)
@@ -694,15 +694,21 @@ func runConcurrency(rc *RunCtx) *Violation {
 	for _, op := range readbackRefs {
 		refs[op.key] = exec(op, true)
 	}
-	if capAbort {
-		// some call was cut off by the stall guard: nothing about this run is judged
-		capAbort = false
-		rc.agg.Discarded++
-		return nil
-	}
+	capAbort = false
+	const cutOff = "panic: step cap exceeded"
 	for _, r := range results {
 		ref := refs[r.op.key]
 		simrt.HashEvent(hashString(r.desc))
+		if strings.HasPrefix(ref, cutOff) {
+			// the isolated call itself is cut off by the stall guard: nothing to compare with
+			rc.probe("operation cut off by the stall guard in isolation too (not judged)")
+			continue
+		}
+		if strings.HasPrefix(r.desc, cutOff) {
+			// the shared instance needs more than 6 million logical steps for a call that a fresh
+			// instance finishes: what was done to it before changed its behaviour
+			r.desc = "no result within 6000000 logical steps (the same call on a fresh instance returns)"
+		}
 		if r.op.relaxed && r.desc == failedOrError {
 			rc.fault("read-error")
 			continue
